@@ -11,7 +11,7 @@ PROP = {
     "units": [{
         "bin": "netsim", "pkg": "tm/tmengine", "inject": [("netsim", "tm/tmengine")],
         "tests": [
-            {"name": "TestVerifC03Agreement", "quick": 250, "thorough": 16000, "shards": {"thorough": 16}, "shrinktime": "60s", "env": {"GOMAXPROCS": "2"}},
+            {"name": "TestVerifC03Agreement", "quick": 300, "thorough": 16000, "shards": {"thorough": 16}, "shrinktime": "60s", "env": {"GOMAXPROCS": "2"}},
         ],
     }],
 }
